@@ -296,6 +296,53 @@ def switch_edge(t, value):
     return t['otherwise']
 
 
+_REL = {'Eq': lambda x, y: x == y, 'Ne': lambda x, y: x != y, 'Lt': lambda x, y: x < y, 'Le': lambda x, y: x <= y,
+        'Gt': lambda x, y: x > y, 'Ge': lambda x, y: x >= y}
+
+
+def cmp_guard(a, block, lhs, rhs):
+    """which of the cases lhs < rhs / lhs == rhs / lhs > rhs can reach `block`, judging only by the dominating
+    branches whose condition compares the two (stripped) terms. -> {'lt': bool, 'eq': bool, 'gt': bool, 'guards': n}"""
+    from ..prov import strip_sites
+    lhs, rhs = strip_sites(lhs), strip_sites(rhs)
+    cases = {'lt': (0, 1), 'eq': (1, 1), 'gt': (2, 1)}
+    reach = {k: True for k in cases}
+    n = 0
+
+    def ev(x, l, r):
+        if x == lhs:
+            return l
+        if x == rhs:
+            return r
+        if x[0] == 'un' and x[1] == 'Not':
+            v = ev(x[2], l, r)
+            return None if v is None else (not v)
+        if x[0] == 'bin' and x[1] in _REL:
+            p, q = ev(x[2], l, r), ev(x[3], l, r)
+            if p is None or q is None or isinstance(p, bool) or isinstance(q, bool):
+                return None
+            return _REL[x[1]](p, q)
+        return None
+    for b2 in a.cfg.dom_chain(block)[:-1]:
+        t = a.body.blocks[b2]['term']
+        if t['k'] != 'switch':
+            continue
+        d = strip_sites(a.val_op(t['discr'], a.term_point(b2)))
+        if ev(d, 0, 1) is None or not isinstance(ev(d, 0, 1), bool):
+            continue
+        n += 1
+        for k, (l, r) in cases.items():
+            v = 1 if ev(d, l, r) else 0
+            tgt = switch_edge(t, v)
+            others = {bb for _, bb in t['targets']} | {t['otherwise']}
+            if not a.cfg.edge_dominates(b2, tgt, block) and len(others) > 1:
+                # the edge taken in this case does not lead (exclusively) to block: is block still reachable from it?
+                if not a.cfg.reaches_avoiding(tgt, block) or all(a.cfg.edge_dominates(b2, o, block) for o in others if o != tgt):
+                    reach[k] = False
+    reach['guards'] = n
+    return reach
+
+
 def uses_of_local_blocks(a, l):
     """blocks in which local l occurs as an operand/place base (reads, borrows, call args)"""
     out = set()
